@@ -56,6 +56,8 @@ def run(res, tier, seed):
     for k in range(ncases):
         if k % 5 == 4:
             ss = xslgen.scoping_stylesheet(rng)       # the scoping family (see tools/xslgen.py)
+        elif k % 10 == 3:
+            ss = xslgen.sorting_stylesheet(rng)       # the sorting family
         else:
             ss = xslgen.XslGen(rng).stylesheet()
         d = rng.randrange(len(docs))
@@ -119,7 +121,8 @@ def run(res, tier, seed):
     res.cov["distinct_nontrivial"] = len(nt)
     res.cov["rule"] = ("seeded stylesheets: 1-5 match templates (14-pattern pool, 2 modes, priorities, params) + 0-2 named templates + the root template, 0-2 global variables, bodies nested "
                        "to depth 3 over the instruction kinds listed in instruction_kinds_generated, expressions from the typed XPath generator with the variables in scope; documents "
-                       "from the XPath corpus; non-trivial = at least 5 different instruction kinds in the stylesheet and a non-trivial result tree; distinct by (stylesheet, document). "
+                       "from the XPath corpus; every 5th stylesheet from the scoping family (call-template / apply-templates with and without with-param under if/choose/for-each/"
+                       "literal elements, same-named caller variables), every 10th from the sorting family (1-3 tie-prone sort keys, mixed order and data-type, position()/last() printed); non-trivial = at least 5 different instruction kinds in the stylesheet and a non-trivial result tree; distinct by (stylesheet, document). "
                        "Cases whose definition value involves a number outside the model or a dynamic error are not judged (counted in dropped_unjudged)")
     for ev in events[:2]:
         cdir = cases[ev["sample"]]["dir"]
